@@ -527,8 +527,8 @@ func (c *Ctx) RuleSuffixOps() *Result {
 						}
 					}
 				}
-				if !uses {
-					continue
+				if !uses || !loopDeletes(l) {
+					continue // only the loop that applies the exclusion files: every one of them must be applied
 				}
 				res.Instances++
 				key := fmt.Sprintf("%s:loop over %s completes", fnName, p.Name())
@@ -559,6 +559,39 @@ func (c *Ctx) RuleSuffixOps() *Result {
 		}
 	}
 	return res
+}
+
+// loopDeletes: the loop body deletes map entries (itself, in a closure it creates, or in a function it calls).
+func loopDeletes(l *natLoop) bool {
+	hasDelete := func(fn *ssa.Function) bool {
+		found := false
+		allInstrs(fn, func(in ssa.Instruction) {
+			if cc := callCommon(in); cc != nil {
+				if bi, ok := cc.Value.(*ssa.Builtin); ok && bi.Name() == "delete" {
+					found = true
+				}
+			}
+		})
+		return found
+	}
+	for b := range l.body {
+		for _, in := range b.Instrs {
+			if cc := callCommon(in); cc != nil {
+				if bi, ok := cc.Value.(*ssa.Builtin); ok && bi.Name() == "delete" {
+					return true
+				}
+				if sf := staticFn(cc); sf != nil && len(sf.Blocks) > 0 && hasDelete(sf) {
+					return true
+				}
+			}
+			if mc, ok := in.(*ssa.MakeClosure); ok {
+				if f, ok := mc.Fn.(*ssa.Function); ok && hasDelete(f) {
+					return true
+				}
+			}
+		}
+	}
+	return false
 }
 
 func sameEntry(a, b ssa.Value) bool {
@@ -1070,9 +1103,52 @@ func flowsIntoPhi(v ssa.Value, target *ssa.Phi, depth int) bool {
 // the same key derivation (the scanner's line, untransformed).
 func (c *Ctx) RuleExclKey() *Result {
 	res := &Result{Rule: "EXCL-KEY", MinInst: 2}
-	isText := func(v ssa.Value) bool {
-		call, ok := stripConv(v).(*ssa.Call)
-		return ok && isMeth(staticCallee(&call.Call), "bufio", "Scanner", "Text")
+	var isText func(v ssa.Value) bool
+	isText = func(v ssa.Value) bool {
+		v = stripConv(v)
+		if call, ok := v.(*ssa.Call); ok {
+			return isMeth(staticCallee(&call.Call), "bufio", "Scanner", "Text")
+		}
+		// the parameter of a visit callback that a line-scanning helper calls with scanner.Text()
+		par, ok := v.(*ssa.Parameter)
+		if !ok {
+			return false
+		}
+		F := par.Parent()
+		pi := paramIndex(F, par)
+		okAll, n := true, 0
+		for _, e := range c.Graph().In[F] {
+			mc, isMC := e.Site.(*ssa.MakeClosure)
+			if !isMC {
+				continue
+			}
+			for _, r := range referrers(mc) {
+				hc := callCommon(r)
+				if hc == nil {
+					continue
+				}
+				H := staticFn(hc)
+				if H == nil || !c.P.IsRepoFn(H) {
+					continue
+				}
+				for j, a := range hc.Args {
+					if a != ssa.Value(mc) || j >= len(H.Params) {
+						continue
+					}
+					for _, rr := range referrers(H.Params[j]) {
+						vc := callCommon(rr)
+						if vc == nil || vc.Value != ssa.Value(H.Params[j]) || pi >= len(vc.Args) {
+							continue
+						}
+						n++
+						if !isText(vc.Args[pi]) {
+							okAll = false
+						}
+					}
+				}
+			}
+		}
+		return okAll && n > 0
 	}
 	for _, fn := range c.P.RepoFns {
 		if load.ShortPkg(load.FnPkgPath(fn)) != "regex/parser" {
